@@ -20,8 +20,8 @@ func init() {
 			"D2 every Lock is followed by Unlock on all normal paths; D3 no channel operation or blocking queue call happens inside a lock region; " +
 			"D4 AddValue appends under the lock before it publishes the token, RemoveHead takes the token before it pops and pops only when the receive reported ok; " +
 			"D5 the channel's buffer size and the stored capacity are the same value, GetSize/IsEmpty read the channel's length.",
-		NotDecided: "linearizability, FIFO order across producers, exactly-once delivery, the blocking bound: all quantify over interleavings; D1-D4 are the race-freedom and ordering preconditions of such an argument, nothing more.",
-		Run:        runC04,
+		NotDecided:  "linearizability, FIFO order across producers, exactly-once delivery, the blocking bound: all quantify over interleavings; D1-D4 are the race-freedom and ordering preconditions of such an argument, nothing more.",
+		Run:         runC04,
 		Assumptions: []string{"Go memory model: accesses guarded by one mutex do not race; channel operations are synchronised by the runtime"},
 	})
 	register(&propInfo{
@@ -36,8 +36,8 @@ func init() {
 }
 
 type queueRoles struct {
-	q, cls                      *types.Named
-	chanF, capF, mutexF, listF  *types.Var
+	q, cls                     *types.Named
+	chanF, capF, mutexF, listF *types.Var
 }
 
 func bindQueue(c *Ctx, r *Rec) *queueRoles {
@@ -408,8 +408,10 @@ func runC04(c *Ctx, r *Rec) {
 				}
 				if pt, ok1 := g.after(first); ok1 {
 					mod, _ := g.exists(pathQuery{from: pt,
-						stop:     func(n ast.Node) bool { return containsNode(n, second) },
-						goalNode: func(n ast.Node) bool { return !containsNode(n, second) && assignedIn(info, n, objKey(info.Uses[a]), &symEnv{info: info}) }})
+						stop: func(n ast.Node) bool { return containsNode(n, second) },
+						goalNode: func(n ast.Node) bool {
+							return !containsNode(n, second) && assignedIn(info, n, objKey(info.Uses[a]), &symEnv{info: info})
+						}})
 					same = !mod
 				}
 			}
